@@ -142,6 +142,8 @@ class ReqGen:
         self.serial += 1
         c = r.random()
         base = "v%d-" % self.serial
+        if c >= 1.0 - getattr(self, "big_p", 0.004):
+            return base + "w" * r.randrange(2_300_000, 6_000_000)      # far beyond the log file's 1 MiB pre-allocation step (limit: 10 MB)
         if c < 0.05:
             return ""
         if c < 0.6:
